@@ -269,7 +269,15 @@ pub fn %s(%slimit: usize) -> Vec<Vec<R>> {
     while out.len() < limit {
         match it.next() {
             Some(r) => out.push(vec![r.q]),
-            None => break,
+            None => {
+                // the iterator is fused: once exhausted it must stay exhausted
+                for _ in 0..2 {
+                    if let Some(r) = it.next() {
+                        out.push(vec![r.q]);
+                    }
+                }
+                break;
+            }
         }
     }
     out
